@@ -67,7 +67,7 @@ fn search(unit: &str, tag: &str, tier: &str) -> Option<Value> {
         "c07_lr" => c07::search(tag, tier),
         "c06_moves" | "c06_dijkstra" | "c06_cpct" | "c06_rank" | "c05_apply" => c06::search(tag, tier).or_else(|| c07::search(tag, tier)),
         "c12_header" => c12::search(tag, tier),
-        "c12_lex" | "c12_flags" => c12::search_lex(tier),
+        "c12_lex" | "c12_flags" | "c12_unescape" => c12::search_lex(tier),
         "c12_yacc" | "c12_yacc2" | "c12_yacc3" => c12::search_yacc(tier),
         "c10_decls" => if tag.starts_with("C12") { c12::search_yacc(tier) } else { c10::search(tag, tier) },
         "c11_decl" if tag.starts_with("C12") => c12::search_lex(tier),
